@@ -188,6 +188,24 @@ impl Shadow {
         }
     }
 
+    /// Copy of the shadow in which arena `a` has no resurrected set (what-if reachability).
+    pub fn clone_arena_without_resurrected(&self, a: Aid) -> Shadow {
+        let mut s = self.clone();
+        s.arena_mut(a).resurrected.clear();
+        s
+    }
+    /// Copy of the shadow in which no stash slot of arena `a` holds anything.
+    pub fn clone_arena_without_stash(&self, a: Aid) -> Shadow {
+        let mut s = self.clone();
+        let inners: Vec<Id> = s.objs.iter().filter(|(_, o)| o.arena == a && o.kind == Kind::SetInner).map(|(i, _)| *i).collect();
+        for i in inners {
+            for e in s.objs.get_mut(&i).unwrap().strong.iter_mut() {
+                *e = None;
+            }
+        }
+        s
+    }
+
     pub fn arena_objs(&self, a: Aid) -> impl Iterator<Item = (&Id, &Obj)> {
         self.objs.iter().filter(move |(_, o)| o.arena == a)
     }
